@@ -411,11 +411,38 @@ func NewNodeOnDB(spec *Spec, db, blockDB, txDB dbm.DB, initChain bool) *Node {
 				fund = append(fund, SignTx(spec.ChainID, msg, DefaultFee, "", int64(-1000-i), FaucetKey))
 			}
 		}
+		// Genesis validators are stored in the legacy (pre-non-custodial) form because the genesis height lies before
+		// the NCUST activation: output address and reward delegators of the spec do not reach state through genesis.
+		// As on main-net, operators set them with an edit-stake once the feature is active.
+		if spec.Warmup >= 3 {
+			hasAccount := map[string]bool{}
+			for _, a := range spec.Accounts {
+				if a.Multi == nil {
+					hasAccount[Addr(a.Key).String()] = true
+				}
+			}
+			for i, nd := range spec.Nodes {
+				if !hasAccount[Addr(nd.Key).String()] {
+					continue // operator cannot pay the fee: the record stays in its legacy genesis form
+				}
+				out := nd.Key
+				if nd.Output != nil {
+					out = nd.Output
+				}
+				url := nd.URL
+				if url == "" {
+					url = "https://node.example:443"
+				}
+				msg := &nodesTypes.MsgStake{PublicKey: nd.Key.PublicKey(), Chains: nd.Chains, Value: sdk.NewInt(nd.Stake), ServiceUrl: url,
+					Output: Addr(out), RewardDelegators: nd.Delegators}
+				fund = append(fund, SignTx(spec.ChainID, msg, DefaultFee, "", int64(-2000-i), nd.Key))
+			}
+		}
 		if len(fund) > 0 {
 			r := n.RunBlock(Block{DT: time.Second, Txs: fund})
 			for _, t := range r.Txs {
 				if t.Code != 0 {
-					panic("funding of multisig account failed: " + t.Log)
+					panic("post-genesis setup transaction failed: " + t.Log)
 				}
 			}
 			n.Warm = append(n.Warm, r)
